@@ -43,6 +43,9 @@ fn plan(check: &str, tier: &str) -> (u64, f64) {
     }
 }
 
+/// a run that makes no progress for this long (wall clock) is examined (see `supervise`)
+const STALL_S: f64 = 90.0;
+
 /// checks whose property has a termination clause: a reproducible non-termination is a violation
 fn has_liveness(check: &str) -> bool {
     matches!(check, "C04" | "C11" | "C15" | "C16" | "C17" | "C06" | "C10")
@@ -94,6 +97,8 @@ fn kill_children() {
 }
 
 struct Worker {
+    /// when the run in progress was started (wall clock), to notice a run that makes no progress
+    started: Option<Instant>,
     in_progress: Option<u64>,
     last_fatal: Option<serde_json::Value>,
     next_start: u64,
@@ -237,12 +242,13 @@ pub fn supervise(args: &[String]) -> i32 {
     let mut ws: Vec<Worker> = Vec::new();
     for w in 0..workers {
         spawn_worker(&tx, w, &check, &tier, seed, w as u64, workers as u64, runs, budget);
-        ws.push(Worker { in_progress: None, last_fatal: None, next_start: w as u64, alive: true });
+        ws.push(Worker { started: None, in_progress: None, last_fatal: None, next_start: w as u64, alive: true });
     }
     let mut agg = Agg::default();
     let mut alive = workers;
     let mut last_msg = Instant::now();
     let mut first_violation_at: Option<Instant> = None;
+    let mut stall_checked: std::collections::BTreeSet<u64> = std::collections::BTreeSet::new();
     while alive > 0 {
         // once a violation is in hand the verdict is settled: give the other workers a little
         // time to finish what they are in (a lower-numbered run may fail too), then stop. Trees
@@ -252,6 +258,31 @@ pub fn supervise(args: &[String]) -> i32 {
             if t.elapsed().as_secs_f64() > 10.0 {
                 kill_children();
                 break;
+            }
+        }
+        // a run that has made no progress for a long time (runs take milliseconds to a few
+        // seconds): for the properties with a termination clause it is re-run alone in a fresh
+        // process, and if it does not finish there either, the code under test computes without
+        // ever reaching a synchronisation point, a system call or the clock -- it hangs
+        if has_liveness(&check) && agg.violations.is_empty() {
+            let stalled: Option<u64> = ws.iter().filter(|x| x.alive).filter_map(|x| match (x.in_progress, x.started) {
+                (Some(i), Some(t)) if t.elapsed().as_secs_f64() > STALL_S && !stall_checked.contains(&i) => Some(i),
+                _ => None,
+            }).min();
+            if let Some(i) = stalled {
+                stall_checked.insert(i);
+                let rs = simrt::rng::run_seed(seed, &check, i);
+                let scn = crate::gen::generate(&check, &tier, rs);
+                match run_isolated(&scn, STALL_S) {
+                    Err(e) if e == "timeout" => {
+                        agg.runs += 1;
+                        agg.evaluations += 1;
+                        agg.violations.push((i, Violation { class: "no-progress".into(), detail: format!("run {} does not finish: no progress for {} s of wall time in its worker and again in a fresh process (runs of this check take milliseconds to seconds); a thread of the code under test computes without reaching any synchronisation point, system call or clock", i, STALL_S), signature: "".into() }));
+                    }
+                    Ok(_) => agg.harness_errors.push(format!("a worker made no progress in run {} for {} s, but the run finishes in a fresh process", i, STALL_S)),
+                    Err(e) => agg.harness_errors.push(format!("a worker made no progress in run {} for {} s; re-running it alone failed: {}", i, STALL_S, e)),
+                }
+                continue;
             }
         }
         let msg = match rx.recv_timeout(std::time::Duration::from_secs_f64(1.0)) {
@@ -278,10 +309,12 @@ pub fn supervise(args: &[String]) -> i32 {
                 match v["t"].as_str() {
                     Some("start") => {
                         ws[w].in_progress = v["i"].as_u64();
+                        ws[w].started = Some(Instant::now());
                     }
                     Some("done") => {
                         let i = v["i"].as_u64().unwrap_or(0);
                         ws[w].in_progress = None;
+                        ws[w].started = None;
                         ws[w].next_start = i + workers as u64;
                         match serde_json::from_value::<RunOut>(v["out"].clone()) {
                             Ok(out) => absorb(&mut agg, i, out),
@@ -726,7 +759,17 @@ pub fn replay(args: &[String]) -> i32 {
             return 2;
         }
     };
-    match run_isolated(&rf.scenario, 300.0) {
+    let res = run_isolated(&rf.scenario, if rf.expected_class == "no-progress" { STALL_S } else { 300.0 });
+    if rf.expected_class == "no-progress" {
+        if let Err(e) = &res {
+            if e == "timeout" {
+                println!("replay reproduces: [no-progress] the run does not finish within {} s in a fresh process", STALL_S);
+                println!("VIOLATION property={} replay={}", rf.property, file);
+                return 1;
+            }
+        }
+    }
+    match res {
         Ok(out) => {
             let hit = out.violations.iter().find(|v| v.class == rf.expected_class);
             match hit {
